@@ -46,7 +46,7 @@ CLAIMS = {
         text=('Partial, as stated in DESIGN: only the clause "recovery never panics" is decided. Unbounded deductive proof (Verus) of every safety obligation (overflow, bounds, unwrap, std preconditions) in RaftLog::open, Chunk::open, '
               'handle_record_error, verify_trailing_zeros, RecordIterator::next, OffsetReader::read, reopen_last_closed, ensure_consecutive_chunks and the chunk getters they call, for EVERY file content (ghost byte sequence), '
               'every read_buffer_size and both truncate settings. One obligation is red and recorded as KNOWN FINDING D10: a loaded chunk with no complete record reaches Chunk::last_segment (panic). '
-              'Rotation order (new chunk created and its head written on the caller thread before the old tail is queued) is proved under C11. That open returns Ok after every crash is NOT decided (crash points x schedules).'),
+              'Rotation order (new chunk created and its head written on the caller thread before the old tail is queued) is proved under C11. Removal order (purge schedules the oldest chunks first; the worker unlinks in list order and a failure leaves a prefix removed, i.e. a gap-free suffix on disk) is checked under this property as well. That open returns Ok after every crash is NOT decided (crash points x schedules).'),
         note=TRUST + ' Magnitudes: chunk files < 2^62 bytes, file-name offsets < 2^62. Replayed records are assumed accepted (see C02).',
         technique='Verus safety obligations over a ghost file content, on extracted code',
         design='5 C05',
